@@ -156,6 +156,10 @@ class C05(Property):
         f = em.get_phasefield(grid)
         a, b = spec["a"], spec["b"]
         field = ScalarField(grid, a * np.asarray(f.data, float) + b)
+        if spec.get("warmup") in (None, "other-levels") and (len(drops) + int(10 * a)) % 3 == 0:
+            # the same image in single precision (still far more accurate than the 1e-4 that is asked for)
+            field = ScalarField(grid, np.asarray(field.data, np.float32), dtype=np.float32)
+            ctx.cls("image-float32")
         thr = spec["threshold"]
         if thr == 0.5:
             thr = a * 0.5 + b
